@@ -122,7 +122,9 @@ MARKED = ["import-statement", "type-statement", "let-statement", "export-stateme
 # where a package reference occurs (C17): the marked bracket and whether it is the document's own package
 REF_BRACKETS = {"package-name": "new", "package-path": "path"}
 
-TRIVIA = [" ", "\n", "  \t", " // line comment\n", " /* block */ ", "\r\n", " /* a /* nested */ b */ ", "\n\n  "]
+TRIVIA = [" ", "\n", "  \t", " // line comment\n", " /* block */ ", "\r\n", " /* a /* nested */ b */ ", "\n\n  ",
+          # doc comments are comments lexically; in front of a statement or item they are kept in the tree
+          "\n/// a doc line\n", "\n/** a block doc\n  * with a second line\n    and an indented third\n */\n"]
 
 KEYWORDS = ["import", "as", "interface", "use", "world", "export", "include", "with", "resource", "constructor",
             "static", "variant", "record", "flags", "enum", "type", "func", "tuple", "list", "option", "result",
